@@ -266,7 +266,7 @@ func safeIncludes(rng cty.ValueRange, c cty.Value) (ret cty.Value, p bool) {
 }
 
 func genC05(c *Ctx, r *rng.R, i int) {
-	if i < 6 {
+	if i < 8 {
 		c05Corpus(c, i)
 		return
 	}
@@ -650,6 +650,27 @@ func c05Corpus(c *Ctx, i int) {
 		var res cty.Value
 		p, _ := recovered(func() { res = cty.UnknownVal(cty.Number).Refine().NotNull().NumberRangeLowerBound(cty.NegativeInfinity, false).NewValue() })
 		c.Add("corpus", fmt.Sprintf("K05_run %s %s %s", cq.Val(cty.UnknownVal(cty.Number)), cq.List([]string{"RcNotNull", rcall{kind: "lower", v: cty.NegativeInfinity, inc: false}.coq()}), cq.ResVal(res, p)), "x > -inf", true)
+	case 6, 7: // an exclusive bound at the infinity on its own side: reported as given, and that infinity is excluded
+		v := cty.UnknownVal(cty.Number).Refine().NotNull().NumberRangeLowerBound(cty.NegativeInfinity, false).NewValue()
+		cand := cty.NegativeInfinity
+		if i == 7 {
+			v = cty.UnknownVal(cty.Number).Refine().NumberRangeUpperBound(cty.PositiveInfinity, false).NewValue()
+			cand = cty.PositiveInfinity
+		}
+		rg := v.Range()
+		lo, loInc := rg.NumberLowerBound()
+		hi, hiInc := rg.NumberUpperBound()
+		c.Add("corpus", fmt.Sprintf("K05_bounds %s (Ok (%s, %s)) (Ok (%s, %s))", cq.Val(v), cq.Val(lo), cq.Bool(loInc), cq.Val(hi), cq.Bool(hiInc)), "exclusive bound at its own infinity", true)
+		inc, p := safeIncludes(rg, cand)
+		c.Add("corpus", fmt.Sprintf("K05_includes %s %s %s", cq.Val(v), cq.Val(cand), cq.ResVal(inc, p)), "includes the excluded infinity", true)
+		c.Count("oracle_evals")
+		if p || !(inc.IsKnown() && inc.False()) {
+			c.Fail("C05/excluded-infinity-admitted", "an exclusive bound at "+cq.Show(cand)+" does not exclude it: Includes answers "+cq.Show(inc), nil)
+		}
+		eq, pe, _ := runOp("OEq", []cty.Value{v, cand})
+		if pe || !(eq.IsKnown() && eq.False()) {
+			c.Fail("C05/excluded-infinity-admitted", "an exclusive bound at "+cq.Show(cand)+" does not exclude it: Equals answers "+cq.Show(eq), nil)
+		}
 	case 4:
 		var res cty.Value
 		p, _ := recovered(func() { res = cty.UnknownVal(cty.Number).Refine().NumberRangeLowerBound(cty.PositiveInfinity, false).NewValue() })
